@@ -26,7 +26,9 @@ PAYLOADS = ['0000000000000000', '7f7f7f7f7f7f7f7f', '8080808080808080', 'fffffff
 PREFIX_SETS = [[], [0x66], [0x67], [0xf3], [0xf2], [0x2e], [0x65], [0xf0], [0x66, 0x67], [0x3e], [0x66, 0xf3], [0x67, 0x64]]
 
 def control_strings(d, rng, tier):
-    """yield hex strings"""
+    """yield hex strings.  The structured space is a FIXED enumeration per tier (its internal sampling uses a constant seed, not
+    VERIF_SEED): the reference-disagreement classes listed in known_findings.json must not depend on the seed."""
+    rng = random.Random(20250925)
     paths = opcode_paths(d)
     seen = set()
     full = (tier == 'thorough')
